@@ -1118,7 +1118,7 @@ def check_model_constants(s):
     s.floor("C17.18", 44)
 
 
-def check_integration(s):
+def check_integration(s, rule="C17.17"):
     """C17.17: one environment step of a classic-control environment integrates the vector field `dynamics` (C17.6) from the state's own
     time t over exactly one control interval dt, starting at the state's own y, under the action taken, with the configured solver and
     step size, reads the solution at t + dt, applies the state limits (C17.4) to it, and advances the clock by dt."""
@@ -1138,19 +1138,19 @@ def check_integration(s):
         r = p.ret
         ok = isinstance(r, tuple) and r and r[0] == "update" and r[1] == ("param", "state")
         f = {k_[0]: v for k_, v in r[2] if len(k_) == 1} if ok else {}
-        s.ob("C17.17", con, ok and set(f) == {"t", "y"}, "the step returns the incoming state with y and t replaced (nothing else touched)", loc, key="step-updates-y-and-t",
+        s.ob(rule, con, ok and set(f) == {"t", "y"}, "the step returns the incoming state with y and t replaced (nothing else touched)", loc, key="step-updates-y-and-t",
              detail=show(r, maxlen=200), necessary_for="the same continuous-time dynamics and state limits as the reference")
         if not (ok and set(f) == {"t", "y"}):
             continue
         got = nz.canon(f["y"])
-        s.ob("C17.17", con, got in wants,
+        s.ob(rule, con, got in wants,
              "y' = clip(solution at t+dt of dy/dt = dynamics(t, y, action) from (state.t, state.y) with the configured solver, dt0 and step-size controller)", loc,
              key="integration-step", detail=f"code:      {show_term(got, 700)}\nreference: {show_term(wants[0], 700)}",
              necessary_for="each step advances the reference's vector field by exactly one control interval from the current state under the action taken")
-        s.eq("C17.17", con, nz, f["t"], want_t, "t' = t + dt", loc, key="clock-advance")
+        s.eq(rule, con, nz, f["t"], want_t, "t' = t + dt", loc, key="clock-advance")
     if n == 0:
         raise AnalysisError(f"{con}: no path")
-    s.floor("C17.17", 3)
+    s.floor(rule, 3)
 
 
 def check_vector_fields(s):
